@@ -566,7 +566,7 @@ fn main() {
     let rep = Reporter::from_args("C04");
     rep.rule("histories over {push k-sized, pop, try_pop, rotate n, three in-place edits} on Populations<TagP> vs a Vec<Vec<tag>> model with a full-depth sweep after every op; exhaustive up to the stated length, plus seeded random histories, rotation laws for all n<=height<=7 (cyclic shift by one of exactly the top n, in the documented direction: the top population moves to the bottom of the window), and the five population utility components on prepared states; distinct_nontrivial counts distinct (stack height, applicable op) pairs in exhaustive histories, distinct random histories, and distinct component input classes");
     rep.assume("Individual<TagP> equality (tag, objective bits) identifies individuals");
-    let (len, max_rot) = rep.tier.pick((5usize, 3u8), (7usize, 4u8));
+    let (len, max_rot) = rep.tier.pick((6usize, 3u8), (7usize, 4u8));
     rep.set("exhaustive_history_length", json!(len));
     rep.sample(json!({"history": format!("{:?}", [Op::Push(2), Op::Push(1), Op::Push(0), Op::Rotate(3), Op::TryPop, Op::Rotate(2)])}));
     rotation_laws(&rep);
